@@ -9,6 +9,7 @@
    Dev names deviations of the pinned code that are recorded as known findings (carrier losses). *)
 EXTENDS Integers, Sequences, FiniteSets, TLC, Json, SequencesExt
 CONSTANTS Obj, D, Dev,
+          Family,       \* names of the operations explored in this configuration
           KeepFamily    \* atom subsets explored by Subset: {} means every non-empty subset, otherwise exactly these
 VARIABLES heap,   \* [uid -> [name, el, serial, idx]]
           top,    \* [Obj -> Null or [chains: Seq([cid, res: Seq([name, resSeq, seg, atoms: Seq(uid)])]), atoms: Seq(uid), bonds: Seq([u, v, ty, ord])]]
@@ -63,20 +64,23 @@ SubsetOf(h, t, keepIdx, base, off, cap) ==
                                                                ELSE IF cap.serial = "renumber" THEN u - base + 1 + TerBefore(u) ELSE 0]],
       n |-> Len(kept)]
 All(t) == 0..(Len(t.atoms) - 1)
-NoEditYet == \A i \in 1..Len(hist) : hist[i].op \notin {"delete_atom", "add_bond"}     \* transformations first, edits afterwards as probes
+\* edits are probes: a transformation is only taken FROM a topology that has not been edited (the edited object itself is not
+\* constrained), but may follow edits of other objects -- e.g. load a file, edit the result, load the same file again
+Unedited(x) == \A i \in 1..Len(hist) : ~(hist[i].op \in {"delete_atom", "add_bond"} /\ hist[i].x = x)
+NoEditYet == TRUE
 \* ---- transformations ----------------------------------------------------------------------
-Copy(x, dst, how) == /\ Live(x) /\ dst # x /\ NoEditYet
+Copy(x, dst, how) == /\ Live(x) /\ dst # x /\ Unedited(x) /\ how \in Family
    /\ LET r == SubsetOf(heap, top[x], All(top[x]), nxt, 0, FullCap) IN
         heap' = r.h2 /\ top' = [top EXCEPT ![dst] = r.t2] /\ nxt' = nxt + r.n
    /\ Log(how, x, 0, dst, <<>>)
-Subset(x, dst, keep) == /\ Live(x) /\ dst # x /\ keep # {} /\ NoEditYet
+Subset(x, dst, keep) == /\ Live(x) /\ dst # x /\ keep # {} /\ Unedited(x) /\ "subset" \in Family
    /\ LET r == SubsetOf(heap, top[x], keep, nxt, 0, FullCap) IN
         heap' = r.h2 /\ top' = [top EXCEPT ![dst] = r.t2] /\ nxt' = nxt + r.n
    /\ Log("subset", x, 0, dst, SetToSeq(keep))
 \* x.join(y, keep_resSeq): chains of x then chains of y, atoms of y renumbered after those of x; with keep_resSeq = FALSE the
 \* residues of y are numbered on from the resSeq of x's last residue
 LastResSeq(t) == LET c == t.chains[Len(t.chains)] IN c.res[Len(c.res)].resSeq
-Join(x, y, dst, keepRS) == /\ Live(x) /\ Live(y) /\ dst # x /\ dst # y /\ NoEditYet
+Join(x, y, dst, keepRS) == /\ Live(x) /\ Live(y) /\ dst # x /\ dst # y /\ Unedited(x) /\ Unedited(y) /\ "join" \in Family
    /\ Len(top[x].atoms) + Len(top[y].atoms) <= 8
    /\ LET rx == SubsetOf(heap, top[x], All(top[x]), nxt, 0, FullCap)
           ry == SubsetOf(rx.h2, top[y], All(top[y]), nxt + rx.n, rx.n, FullCap)
@@ -96,13 +100,13 @@ Cap(c) == IF c = "dataframe" THEN [cid |-> "df_drops_chain_id" \notin Dev, seria
           ELSE IF c = "hdf5" THEN [cid |-> "h5_drops_chain_id" \notin Dev,
                                    serial |-> IF "h5_drops_serial" \in Dev THEN "drop" ELSE "keep", battr |-> FALSE, bonds |-> TRUE]
           ELSE [cid |-> TRUE, serial |-> IF "pdb_renumbers_serial" \in Dev THEN "renumber" ELSE "keep", battr |-> FALSE, bonds |-> FALSE]
-Carrier(x, dst, c) == /\ Live(x) /\ dst # x /\ NoEditYet
+Carrier(x, dst, c) == /\ Live(x) /\ dst # x /\ Unedited(x) /\ c \in Family
    /\ LET r == SubsetOf(heap, top[x], All(top[x]), nxt, 0, Cap(c)) IN
         heap' = r.h2 /\ top' = [top EXCEPT ![dst] = r.t2] /\ nxt' = nxt + r.n
    /\ Log(c, x, 0, dst, <<>>)
 \* ---- edits, modelled as the code performs them --------------------------------------------
 \* delete_atom_by_index renumbers the later Atom OBJECTS and drops the bonds of the deleted atom
-DeleteAtom(x, k) == /\ Live(x) /\ k \in 0..(Len(top[x].atoms)-1) /\ Len(top[x].atoms) > 1
+DeleteAtom(x, k) == /\ Live(x) /\ k \in 0..(Len(top[x].atoms)-1) /\ Len(top[x].atoms) > 1 /\ "delete_atom" \in Family /\ ("subset" \in Family \/ k = 0)
    /\ LET t == top[x]  u == t.atoms[k+1]
           later == { t.atoms[i] : i \in (k+2)..Len(t.atoms) }
           strip(r) == [r EXCEPT !.atoms = SelSeq(r.atoms, LAMBDA w : w # u)] IN
@@ -111,7 +115,7 @@ DeleteAtom(x, k) == /\ Live(x) /\ k \in 0..(Len(top[x].atoms)-1) /\ Len(top[x].a
                      !.bonds = SelSeq(t.bonds, LAMBDA b : b.u # u /\ b.v # u),
                      !.chains = [c \in 1..Len(t.chains) |-> [t.chains[c] EXCEPT !.res = [r \in 1..Len(t.chains[c].res) |-> strip(t.chains[c].res[r])]]]]]
    /\ UNCHANGED nxt /\ Log("delete_atom", x, 0, x, <<k>>)
-AddBond(x, i, j) == /\ Live(x) /\ i < j /\ j <= Len(top[x].atoms)
+AddBond(x, i, j) == /\ Live(x) /\ i < j /\ j <= Len(top[x].atoms) /\ "add_bond" \in Family /\ ("subset" \in Family \/ (i = 1 /\ j = 3))
    /\ (~\E b \in 1..Len(top[x].bonds) : {top[x].bonds[b].u, top[x].bonds[b].v} = {top[x].atoms[i], top[x].atoms[j]})
    /\ top' = [top EXCEPT ![x].bonds = Append(@, [u |-> top[x].atoms[i], v |-> top[x].atoms[j], ty |-> "triple", ord |-> 3])]
    /\ UNCHANGED <<heap, nxt>> /\ Log("add_bond", x, 0, x, <<i - 1, j - 1>>)
@@ -126,7 +130,7 @@ Spec == Init /\ [][Next]_vars
 LastH == hist[Len(hist)]
 Vx(x) == Value(heap, top[x])
 \* copies preserve everything
-CopyPreserves == (hist # <<>> /\ LastH.op \in {"copy", "deepcopy", "pickle"} /\ Dev = {}) =>
+CopyPreserves == (hist # <<>> /\ LastH.op \in {"copy", "deepcopy", "pickle"} /\ Dev = {} /\ Unedited(LastH.dst)) =>
      Vx(LastH.x).chains = Vx(LastH.dst).chains /\ Vx(LastH.x).bonds = Vx(LastH.dst).bonds
 \* indices are contiguous from 0 in every live topology
 Contiguous == \A x \in Obj : Live(x) => Vx(x).index = [a \in 1..Len(top[x].atoms) |-> a - 1]
